@@ -5,11 +5,49 @@ import (
 	"os"
 	"path/filepath"
 	"sort"
+	"strconv"
 	"strings"
 	"time"
 
+	"github.com/go-kit/log"
+	"github.com/prometheus/prometheus/config"
+	pdisc "github.com/prometheus/prometheus/discovery"
+	pscrape "github.com/prometheus/prometheus/scrape"
+
 	"kvassverif/internal/core"
 )
+
+// refTargets: what one plain Prometheus obtains from the coordinator's configuration file: per target id the final
+// labels and the path and query it requests.
+func refTargets(text string) (map[int][2]string, error) {
+	cfg, err := config.Load(text, false, log.NewNopLogger())
+	if err != nil {
+		return nil, err
+	}
+	out := map[int][2]string{}
+	for _, j := range cfg.ScrapeConfigs {
+		for _, sd := range j.ServiceDiscoveryConfigs {
+			st, ok := sd.(pdisc.StaticConfig)
+			if !ok {
+				continue
+			}
+			for _, g := range st {
+				ts, _ := pscrape.TargetsFromGroup(g, j)
+				for _, t := range ts {
+					if t.Labels().Len() == 0 {
+						continue
+					}
+					id, err := strconv.Atoi(t.URL().Query().Get("id"))
+					if err != nil {
+						continue
+					}
+					out[id] = [2]string{t.Labels().String(), WireForm(t.URL())}
+				}
+			}
+		}
+	}
+	return out, nil
+}
 
 // Cases per tier: even indexes are fault-free (reported under the property they are registered for),
 // the workload and the fault are drawn from the case index.
@@ -119,6 +157,9 @@ func Run(w *core.WorkerCtx, k int, prop string) *core.CaseResult {
 				break
 			}
 		}
+	}
+	if prop == "C02" {
+		spec.Rich = true
 	}
 	fault := "none"
 	if prop == "C06" {
@@ -380,6 +421,30 @@ func Run(w *core.WorkerCtx, k int, prop string) *core.CaseResult {
 		}
 		if l.Hits(id) == before[id] {
 			res.Violate(prop+"/real-loop/converged-but-not-scraped", "target %d is listed by a shard in normal state but three scrape rounds of every shard's Prometheus sent no request to it", id)
+		}
+	}
+	if prop == "C02" {
+		// label and URL equivalence through the real binaries: coordinator (discovery, relabeling, hand-over as JSON)
+		// -> sidecar (generated file) -> Prometheus loader -> sidecar proxy -> the request that arrives at the target
+		ref, err := refTargets(l.ConfigText())
+		if err != nil {
+			res.Inconcl = "reference: " + err.Error()
+			return finish()
+		}
+		for _, id := range l.Targets() {
+			want, ok := ref[id]
+			if !ok {
+				continue
+			}
+			gotL, gotW := l.Observed(id)
+			res.AddStat("real_loop_targets_compared_with_plain_prometheus", 1)
+			res.AddSet("real_loop_wire_forms", strings.SplitN(gotW, " ? ", 2)[0])
+			if gotL != want[0] {
+				res.Violate("C02/real-loop/labels-differ", "target %d: the shard's Prometheus has labels %s, one plain Prometheus would have %s", id, gotL, want[0])
+			}
+			if gotW != want[1] {
+				res.Violate("C02/real-loop/url-differs", "target %d: the request that arrives at the target is %s, one plain Prometheus would send %s", id, gotW, want[1])
+			}
 		}
 	}
 	res.AddStat("real_loop_runs", 1)
